@@ -205,7 +205,6 @@ func ruleC06R2(c *core.Ctx) {
 	if cb == nil {
 		return
 	}
-	_ = walk
 	fname := core.FuncName(cb)
 	for _, errNil := range []bool{true, false} {
 		x := newExec(c)
@@ -229,19 +228,44 @@ func ruleC06R2(c *core.Ctx) {
 			}
 			return nil, false
 		}
-		// which captured variable is the filter? the one of pointer-to-function type
-		filterFV := ""
-		for _, fv := range cb.FreeVars {
-			if pt, ok := fv.Type().Underlying().(*types.Pointer); ok {
-				if pp, ok := pt.Elem().Underlying().(*types.Pointer); ok {
-					if _, ok := pp.Elem().Underlying().(*types.Signature); ok {
-						filterFV = fv.Name()
-					}
+		// the filter is the parameter of WalkNodesInStream that points to a function
+		filterParam := ""
+		for _, p := range walk.Params {
+			t := p.Type()
+			for i := 0; i < 2; i++ {
+				if pt, ok := t.Underlying().(*types.Pointer); ok {
+					t = pt.Elem()
 				}
 			}
+			if sig, ok := t.Underlying().(*types.Signature); ok && sig.Results().Len() == 2 {
+				filterParam = p.Name()
+			}
 		}
-		if filterFV == "" {
-			c.Undecide(rule, fname, "gate", c.P.Pos(cb.Pos()), "the callback captures no *func filter variable; the gate cannot be located", nil)
+		if filterParam == "" {
+			c.Undecide(rule, fname, "gate", c.P.Pos(cb.Pos()), "WalkNodesInStream has no filter parameter; the gate cannot be located", nil)
+			return
+		}
+		// phase 1: run WalkNodesInStream up to the point where it hands the callback to the parser
+		var clo *absint.Closure
+		var heap0 map[string]absint.Value
+		x1 := newExec(c)
+		x1.Hooks.Call = func(x *absint.Exec, s *absint.State, site ssa.CallInstruction, callee *ssa.Function, fnv absint.Value, args []absint.Value) (absint.Value, bool) {
+			if callee != nil && isFunc(callee, parserPkg, "ParseStreamCallback") && len(args) == 3 {
+				if cl, ok := args[2].(*absint.Closure); ok && clo == nil {
+					clo = cl
+					heap0 = map[string]absint.Value{}
+					for k, v := range s.Heap {
+						heap0[k] = v
+					}
+				}
+				return x.Fresh(s, "parseerr"), true
+			}
+			return nil, false
+		}
+		x1.Run(x1.NewState(walk, nil, nil))
+		account(c, x1, rule, walk)
+		if clo == nil || clo.Fn != cb {
+			c.Undecide(rule, fname, "gate", c.P.Pos(cb.Pos()), "the callback value handed to the parser could not be determined", nil)
 			return
 		}
 		x.Hooks.Decide = func(x *absint.Exec, s *absint.State, atom string, outs []string) {
@@ -255,14 +279,32 @@ func ruleC06R2(c *core.Ctx) {
 				s.SetData("ferr", outs[0])
 			case strings.HasPrefix(atom, "nil(call:time.Parse#1"):
 				s.SetData("parse", outs[0])
+			case atom == "nil(§"+filterParam+")":
+				s.SetData("filter", outs[0])
 			case strings.HasPrefix(atom, "nil(§@"):
 				id := strings.TrimSuffix(strings.TrimPrefix(atom, "nil(§@"), ")")
-				if x.LocOf[id] == "fv:"+filterFV {
-					s.SetData("filter", outs[0])
+				_ = id
+			}
+		}
+		x.KeepSyms = map[string]bool{filterParam: true}
+		s := x.NewState(cb, []absint.Value{nodeV, errV}, clo.Binds)
+		for k, v := range heap0 {
+			s.Heap[k] = v
+		}
+		// a captured variable the callback writes may hold anything an earlier record left in it
+		for i, fv := range cb.FreeVars {
+			written := false
+			for _, r := range *fv.Referrers() {
+				if st, ok := r.(*ssa.Store); ok && st.Addr == ssa.Value(fv) {
+					written = true
+				}
+			}
+			if written && i < len(clo.Binds) {
+				if p, ok := clo.Binds[i].(absint.Ptr); ok {
+					s.Heap[p.Loc] = absint.Sym{Name: "carried:" + fv.Name()}
 				}
 			}
 		}
-		s := x.NewState(cb, []absint.Value{nodeV, errV}, nil)
 		if !errNil {
 			x.AssumeNil(s, errV, false)
 		} else {
@@ -538,6 +580,12 @@ func ruleC06R6(c *core.Ctx) {
 			okShape := true
 			for i, m := range []string{"(time.Time).Year", "(time.Time).Month", "(time.Time).Day"} {
 				a, ok := termCall(t.Args[i], m)
+				if !ok {
+					// y, m, d := t.Date()
+					if d, isD := t.Args[i].(*absint.Term); isD && d.Op == fmt.Sprintf("call:(time.Time).Date#%d", i) {
+						a, ok = d, true
+					}
+				}
 				if !ok || len(a.Args) != 1 {
 					okShape = false
 					break
